@@ -24,8 +24,8 @@ THEOREMS = {
     'C05': [('ChessVerif.Props.C05', ['Chess.Props.C05_bestmove', 'Chess.Props.C05_bestmove_generated', 'Chess.Props.C05_pv_legal'])],
     'C06': [('ChessVerif.Props.C06', ['Chess.Props.C06_one_bestmove', 'Chess.Props.C06_stop_not_lost', 'Chess.Props.C06_isready', 'Chess.Props.C06_race_free'])],
     'C07': [('ChessVerif.Props.C07', ['Chess.Props.C07_repetition_keys', 'Chess.Props.C07_repetition', 'Chess.Props.C07_rule50', 'Chess.Props.C07_draw', 'Chess.Props.C07_mate_stalemate',
-                                     'Chess.Props.C07_check', 'Chess.Props.C07_attacked', 'Chess.Props.C07_check_after_move']),
-            ('ChessVerif.Lemmas.OKDec', ['Chess.check_eq_of_hypotheses'])],
+                                     'Chess.Props.C07_check', 'Chess.Props.C07_attacked', 'Chess.Props.C07_check_after_move', 'Chess.Props.C07_material']),
+            ('ChessVerif.Lemmas.OKDec', ['Chess.check_eq_of_hypotheses', 'Chess.material_eq_of_hypotheses'])],
     'C08': [('ChessVerif.Props.C08', ['Chess.Props.C08_distance', 'Chess.Props.C08_printed', 'Chess.Props.C08_ranges_disjoint'])],
     'C09': [('ChessVerif.Props.C09', ['Chess.Props.C09_depths', 'Chess.Props.C09_searchmoves', 'Chess.Props.C09_depth_index'])],
     'C10': [('ChessVerif.Props.C10', ['Chess.Props.C10_history', 'Chess.Props.C10_history_cap', 'Chess.Props.C10_iteration_index', 'Chess.Props.C10_pins',
